@@ -72,7 +72,9 @@ func (rt *runtime) clone() *runtime {
 		c.object(rt.global.URIErrorPrototype),
 	}
 
-	out.eval = out.globalObject.property["eval"].value.(Value).value.(*object)
+	// The intrinsic eval function, not whatever the global property "eval"
+	// holds by now (a script may have assigned, deleted or redefined it).
+	out.eval = c.object(rt.eval)
 	out.globalObject.prototype = out.global.ObjectPrototype
 
 	// Not sure if this is necessary, but give some help to the GC
